@@ -17,12 +17,12 @@ func init() {
 	core.Register(&core.Check{
 		ID: "C21", Level: "other", Title: "Imports are gated by the chain registry and blacklist",
 		Explain: "Guard dominance in ImportExTransfer: the call of the router's MakeDepositProposal is dominated by CheckIfChainBlacked(src) err==nil and ==false, GetSideChain(src) err==nil and !=nil, GetChainHandler err==nil, CheckRouterStartBlock err==nil (src = params.SourceChainID); every outbound write (entrance MakeTransaction, BTC and ripple MakeTransaction) is additionally dominated by CheckIfChainBlacked(dst)==false and GetSideChain(dst)!=nil with dst = txParam.ToChainID of the verified message. CheckIfChainBlacked fails closed (returns false only when the read succeeded and found nothing). PutBlackChain / RemoveBlackChain / CheckIfChainBlacked use one key shape; BlackChain reaches PutBlackChain and WhiteChain reaches RemoveBlackChain with params.ChainID before success. Same registry/start-block gate on the three header-sync entrances. 'No state change on rejection' relies on C15 (transaction atomicity).",
-		Run: runC21,
+		Run:     runC21,
 	})
 	core.Register(&core.Check{
 		ID: "C22", Level: "other", Title: "Each accepted import commits exactly one outbound request",
 		Explain: "In entrance.MakeTransaction: exactly one PutRequest call and one PutMerkleVal call, neither inside a loop, both on every path to the nil return (PutRequest err==nil dominates PutMerkleVal), both receiving sink.Bytes() of the same sink with no sink write in between; the sink is written exactly once, by ToMerkleValue.Serialization of a literal whose TxHash = service.GetTx().Hash().ToArray(), FromChainID = the fromChainID parameter and MakeTxParam = the params parameter; PutRequest is keyed (REQUEST, Fix8(params.ToChainID), txHash). Who-may-call: PutMerkleVal is called only from MakeTransaction; NativeService.crossHashes is appended only in PutMerkleVal (and merged in Invoke). In ImportExTransfer the fromChainID argument is params.SourceChainID and the MakeTxParam argument is the MakeDepositProposal result. 'Failed imports commit nothing' relies on C15.",
-		Run: runC22,
+		Run:     runC22,
 	})
 }
 
@@ -170,6 +170,35 @@ func runC21(c *core.Ctx) {
 	}
 }
 
+// derivesFromFieldLoad: v is computed (slice, convert, phi) from a load of field `field`.
+func derivesFromFieldLoad(v ssa.Value, field string, depth int) bool {
+	if depth == 0 || v == nil {
+		return false
+	}
+	if u, ok := v.(*ssa.UnOp); ok {
+		if fa, ok := u.X.(*ssa.FieldAddr); ok {
+			st := fa.X.Type().Underlying().(*types.Pointer).Elem().Underlying().(*types.Struct)
+			return st.Field(fa.Field).Name() == field
+		}
+		return false
+	}
+	switch x := v.(type) {
+	case *ssa.Slice:
+		return derivesFromFieldLoad(x.X, field, depth-1)
+	case *ssa.Convert:
+		return derivesFromFieldLoad(x.X, field, depth-1)
+	case *ssa.ChangeType:
+		return derivesFromFieldLoad(x.X, field, depth-1)
+	case *ssa.Phi:
+		for _, e := range x.Edges {
+			if derivesFromFieldLoad(e, field, depth-1) {
+				return true
+			}
+		}
+	}
+	return false
+}
+
 func indexByte(s string, b byte) int {
 	for i := 0; i < len(s); i++ {
 		if s[i] == b {
@@ -285,6 +314,28 @@ func runC22(c *core.Ctx) {
 	checkFieldWriters(c, "C22.who-may-write", pkNative, "NativeService", "crossHashes", map[string]bool{
 		"(*native.NativeService).PutMerkleVal": true, "(*native.NativeService).Invoke": true,
 	})
+	// Invoke hands the callee FRESH lists: a reset that re-slices the saved list
+	// (x = x[:0]) shares its backing array, so a nested call's leaf would
+	// overwrite an earlier one
+	if inv := c.Fn(pkNative, "NativeService.Invoke"); inv != nil {
+		nsObj, _ := c.P.Obj(pkNative, "NativeService")
+		for _, fld := range []string{"crossHashes", "notifications"} {
+			n := 0
+			for _, st := range fieldStores(inv, nsObj.Type(), fld) {
+				val := st.(*ssa.Store).Val
+				if cl, _ := ir.CallOf(val); cl != nil {
+					if b, ok := cl.Common().Value.(*ssa.Builtin); ok && b.Name() == "append" {
+						continue // the merge after a successful call
+					}
+				}
+				n++
+				aliased := derivesFromFieldLoad(val, fld, 6)
+				c.Decide(!aliased, "C22.fresh-list", inv, "the callee's "+fld+" list is freshly allocated (no alias of the saved list)", c.P.Rel(st.Pos()),
+					"the reset value must not be derived from the field's previous value")
+			}
+			c.Floor("reset stores of NativeService."+fld+" in Invoke", n, 1)
+		}
+	}
 	// ImportExTransfer passes (txParam from mdp, params.SourceChainID)
 	if ie := c.Fn(pkCCM, "ImportExTransfer"); ie != nil {
 		mdp := ifaceMethod(c, pkCCMCom, "ChainHandler", "MakeDepositProposal")
